@@ -27,6 +27,12 @@ Example ex_merge_fills_and_keeps :
 Proof. repeat split. Qed.
 
 (* --- (d) structured merge ------------------------------------------------------- *)
+(* Facts about the model's `merge`, for every (also nested) schema.  The only schema the code's
+   verify_training_cfg instantiates — and the only one compared with the code — is the FLAT
+   Eval.verify_schema (top-level fields, every one a leaf): below the top level the code neither
+   completes nor rejects anything ("the result is complete" holds at depth 1 only; a plain YAML
+   without data_config.provider stays without it).  Typed top-level scalars are handled before the
+   merge (CfgTree.top_value, Eval.verify_training_cfg). *)
 
 (* merge is idempotent *)
 Theorem c20_merge_idempotent : forall s, swf s = true ->
@@ -112,6 +118,8 @@ Theorem c20_oneof_rejects_two : forall must kv, 2 <= count_set kv -> oneof_check
 Proof. exact oneof_rejects_two. Qed.
 Print Assumptions c20_oneof_rejects_two.
 
+(* stated for must_be_set = false: both uses in the code are the bare `@oneof` decorator (`mk`
+   hard-codes it; the translator pins utils.oneof by AST hash) *)
 Theorem c20_oneof_accepts_at_most_one : forall kv, count_set kv <= 1 -> oneof_check false kv = Ok tt.
 Proof. exact oneof_accepts_at_most_one. Qed.
 Print Assumptions c20_oneof_accepts_at_most_one.
@@ -137,20 +145,51 @@ Theorem c20_to_cfg_keeps_keys : forall cs t o n kv c,
 Proof. exact to_cfg_obj_keys. Qed.
 Print Assumptions c20_to_cfg_keeps_keys.
 
-(* --- structured conversion changes no value ---------------------------------------------- *)
+(* --- structured conversion changes no value of a coercion-free tree ---------------------- *)
 (* `veq a b`: b holds the value a in container form (tuple -> list, object -> dict with the
    same keys in the same order, an int possibly as the float of the same value; every other
-   scalar identical).  OmegaConf.structured + to_container yields such a container, for
-   EVERY class table, declared type and value — so the value found at any path of the attrs
-   tree a builder returned is found at the same path of the training configuration. *)
-Theorem c20_to_cfg_preserves_values : forall cs v t o c, to_cfg cs t o v = Ok c -> veq v c = true.
+   scalar identical).  `coercion_free cs t o v`: every scalar of v sits at a field of its own
+   type (the strict conversion, which never converts, succeeds).  For such a value
+   OmegaConf.structured + to_container yields a container holding the same values, for EVERY
+   class table and declared type — so the value found at any path of the attrs tree a builder
+   returned is found at the same path of the training configuration.
+   The hypothesis is necessary and is about the CODE, not the model: a typed OmegaConf node
+   converts a scalar of another type instead of rejecting it (an int / bool / float at a str
+   field is stored as its str(), "12" at an int field as 12, 2 / "yes" at a bool field as True):
+   ex_coercion_changes_value.  (Round-4 review, finding 1: the earlier model raised
+   ValidationError there and the unconditional statement was true for that reason only.) *)
+Theorem c20_to_cfg_preserves_values : forall cs v t o c,
+  coercion_free cs t o v = true -> to_cfg cs t o v = Ok c -> veq v c = true.
 Proof. exact to_cfg_preserves_values. Qed.
 Print Assumptions c20_to_cfg_preserves_values.
 
-Theorem c20_to_cfg_value_at : forall cs v t o c p x, to_cfg cs t o v = Ok c -> get p v = Some x ->
+Theorem c20_to_cfg_value_at : forall cs v t o c p x,
+  coercion_free cs t o v = true -> to_cfg cs t o v = Ok c -> get p v = Some x ->
   exists y, get p c = Some y /\ veq x y = true.
 Proof. exact to_cfg_value_at. Qed.
 Print Assumptions c20_to_cfg_value_at.
+
+(* on coercion-free values the code's conversion IS the strict one *)
+Theorem c20_to_cfg_strict_agrees : forall cs v t o c,
+  to_cfg_gen true cs t o v = Ok c -> to_cfg cs t o v = Ok c.
+Proof. exact to_cfg_strict_agrees. Qed.
+Print Assumptions c20_to_cfg_strict_agrees.
+
+(* non-vacuity, and the counterexample to the unconditional form *)
+Example ex_coercion_free :
+  coercion_free [] TFloat false (VInt 2) = true /\ to_cfg [] TFloat false (VInt 2) = Ok (VFloat 2) /\
+  coercion_free [] (TListOf TInt) true (VTup [VInt 160; VInt 160]) = true /\
+  coercion_free [] TStr false (VInt 123) = false.
+Proof. vm_compute. repeat split. Qed.
+Example ex_coercion_changes_value :
+  to_cfg [] TStr false (VInt 123) = Ok (VStr "123") /\ veq (VInt 123) (VStr "123") = false /\
+  to_cfg [] TStr false (VBool true) = Ok (VStr "True") /\
+  to_cfg [] TInt false (VStr "12") = Ok (VInt 12) /\ to_cfg [] TInt false (VStr "1e3") = Err ValidationError /\
+  to_cfg [] TBool false (VInt 2) = Ok (VBool true) /\ to_cfg [] TBool false (VStr "Yes") = Ok (VBool true) /\
+  to_cfg [] (TListOf TInt) true (VTup [VStr "1"; VInt 2]) = Ok (VList [VInt 1; VInt 2]) /\
+  to_cfg [] (TListOf TInt) true (VTup [VFloat (3 # 2); VInt 2]) = Err ValidationError /\
+  to_cfg [] TStr false (VFloat (3 # 2)) = Err Unmodelled.
+Proof. vm_compute. repeat split. Qed.
 
 Example ex_veq :
   veq (VObj "C" [("a", VInt 1); ("b", VTup [VFloat (1 # 2); VNone])])
